@@ -84,8 +84,47 @@ def suite_recv(ctx):
                          f"{fq(pos[2])} {fq(d[0])} {fq(d[1])} {fq(d[2])}")
         reals.append((got, cplx, (*pos, az, el), scale))
         ctx.count(key=('recv', kind, az, el, grid.shape_cells))
+    # several receivers in one call: every value is that of the receiver
+    # alone (orientations that cancel in the sum included)
+    batch_bad = []
+    for t in range(12 if ctx.thorough else 5):
+        hs = [rng.integers(1, 9, int(rng.integers(4, 8)))/2.0 for _ in range(3)]
+        grid = emg3d.TensorMesh(hs, (0., 0., 0.))
+        f = emg3d.Field(grid, frequency=1.0)
+        f.field[:] = rng.integers(-16, 17, f.field.size)/4.0 + \
+            1j*rng.integers(-16, 17, f.field.size)/4.0
+        layouts = [([30., -30.], [0., 0.]), ([0., 180.], [0., 0.]),
+                   ([0., 0.], [20., -20.]), ([45., 135., -135., -45.],
+                                            [0., 0., 0., 0.]),
+                   ([90., -90., 10.], [0., 0., 90.]),
+                   ([12.5, 77.0, -140.], [5., -60., 33.])]
+        az, el = layouts[t % len(layouts)]
+        m_ = len(az)
+        xyz = [np.array([float(nodes[1] + (nodes[-2]-nodes[1]) *
+                               rng.uniform(0.05, 0.95)) for _ in range(m_)])
+               for nodes in (grid.nodes_x, grid.nodes_y, grid.nodes_z)]
+        for method in ('linear', 'cubic'):
+            with warnings.catch_warnings():
+                warnings.simplefilter('ignore')
+                together = np.asarray(fields.get_receiver(
+                    f, (*xyz, np.array(az), np.array(el)), method=method))
+                alone = np.array([complex(fields.get_receiver(
+                    f, (xyz[0][q], xyz[1][q], xyz[2][q], az[q], el[q]),
+                    method=method)) for q in range(m_)])
+            if together.shape != alone.shape or not np.allclose(
+                    together, alone, rtol=1e-12, atol=1e-13, equal_nan=True):
+                batch_bad.append((method, az, el))
+                ctx.violation(
+                    'receiver-depends-on-companions',
+                    f'get_receiver({method}) for receivers with azimuths '
+                    f'{az}, elevations {el} in one call gives '
+                    f'{together.tolist()}, one by one {alone.tolist()}',
+                    {'azimuth': az, 'elevation': el, 'method': method,
+                     'shape': grid.shape_cells})
+        ctx.count(key=('recv-batch', t, tuple(az), tuple(el)))
     out = common.run_driver(lines, jobs=8)
     bad = []
+    bad += batch_bad
     k = 0
     for got, cplx, pos, scale in reals:
         flag, re = out[k].split(' ')
